@@ -178,3 +178,65 @@ Proof.
     replace (2 ^ n - 1) with (N.ones n) by (rewrite N.ones_equiv; lia).
     rewrite N.land_ones. apply N.mod_small. exact Hv.
 Qed.
+
+(* ------------------------------------------------------------------ field (val bs) = bs *)
+Lemma field_le_from_shift v i n : field_le_from v i n = field_le_from (v / 2 ^ i) 0 n.
+Proof.
+  revert v i; induction n as [|n IH]; intros v i; cbn [field_le_from]; [reflexivity|].
+  f_equal.
+  - rewrite <- N.shiftr_div_pow2, N.shiftr_spec'. f_equal.
+  - rewrite (IH v (N.succ i)). rewrite (IH (v / 2 ^ i) (N.succ 0)). f_equal.
+    rewrite N.div_div by (try (apply N.pow_nonzero; lia); lia).
+    rewrite <- N.pow_add_r. f_equal. f_equal. lia.
+Qed.
+
+Lemma field_le_val_le bs : field_le (val_le bs) (length bs) = bs.
+Proof.
+  induction bs as [|b r IH]; [reflexivity|].
+  cbn [val_le length]. unfold field_le. cbn [field_le_from]. f_equal.
+  - rewrite N.bit0_odd. rewrite N.odd_add_mul_2. destruct b; reflexivity.
+  - rewrite field_le_from_shift. change (2 ^ N.succ 0) with 2.
+    replace ((N.b2n b + 2 * val_le r) / 2) with (val_le r).
+    + exact IH.
+    + destruct b; cbn [N.b2n]; lia.
+Qed.
+Lemma field_be_val_be bs : field_be (val_be bs) (length bs) = bs.
+Proof.
+  unfold field_be. rewrite val_be_rev, <- (rev_length bs), field_le_val_le. apply rev_involutive.
+Qed.
+Lemma field_val E bs : field E (val E bs) (length bs) = bs.
+Proof. destruct E; [apply field_be_val_be | apply field_le_val_le]. Qed.
+
+(* ------------------------------------------------------------------ take_pad *)
+Lemma take_pad_length n l : length (take_pad n l) = n.
+Proof. revert l; induction n as [|n IH]; intros l; cbn [take_pad]; [reflexivity|]. destruct l; cbn [length]; f_equal; apply IH. Qed.
+Lemma take_pad_firstn_gen n l k : (n <= k)%nat -> take_pad n l = firstn n (l ++ zeros k).
+Proof.
+  revert l k; induction n as [|n IH]; intros l k Hk; [reflexivity|]. cbn [take_pad].
+  destruct l as [|b r]; cbn [app].
+  - destruct k as [|k]; [lia|]. cbn [zeros repeat firstn]. f_equal. fold (zeros k).
+    rewrite (IH [] k) by lia. reflexivity.
+  - cbn [firstn]. f_equal. apply IH. lia.
+Qed.
+Lemma take_pad_firstn n l : take_pad n l = firstn n (l ++ zeros n).
+Proof. apply take_pad_firstn_gen. lia. Qed.
+Lemma firstn_firstn_le {A} (l : list A) a b : (a <= b)%nat -> firstn a (firstn b l) = firstn a l.
+Proof. intros H. rewrite firstn_firstn. f_equal. lia. Qed.
+Lemma firstn_app_le {A} (l r : list A) n : (n <= length l)%nat -> firstn n (l ++ r) = firstn n l.
+Proof. intros H. rewrite firstn_app. replace (n - length l)%nat with 0%nat by lia. cbn. apply app_nil_r. Qed.
+
+(* the peek of the L0 reader: the value of the next n bits, zero padded *)
+Lemma s_peek_spec E strict cap n rest pos pk :
+  1 <= n -> n <= cap ->
+  s_peek E strict cap n (mkr rest pos pk) =
+  if strict && (N.of_nat (length rest) <? n) then Err
+  else Ok (val E (firstn (N.to_nat n) (rest ++ zeros (N.to_nat n))), mkr rest pos (N.max pk n)).
+Proof.
+  intros H1 Hc. unfold s_peek, s_take, mkr; cbn [sr_rest sr_pos sr_peeked].
+  destruct ((n =? 0) || (cap <? n)) eqn:Hg; [lia|].
+  destruct (n <=? N.of_nat (length rest)) eqn:Hl.
+  - replace (N.of_nat (length rest) <? n) with false by lia. rewrite andb_false_r.
+    rewrite firstn_app_le by lia. reflexivity.
+  - replace (N.of_nat (length rest) <? n) with true by lia. rewrite andb_true_r.
+    destruct strict; [reflexivity|]. rewrite take_pad_firstn. reflexivity.
+Qed.
